@@ -549,7 +549,7 @@ func execStep(tr *Trace, store *RefStore, rts map[int]*instRT, st Step, apiSeq *
 		if rt == nil {
 			return
 		}
-		api("validate", func() string {
+		api(fmt.Sprintf("validate %d", int64(st.CtxTimeout)), func() string {
 			ctx := context.Background()
 			if st.CtxTimeout > 0 {
 				var cancel context.CancelFunc
@@ -567,7 +567,7 @@ func execStep(tr *Trace, store *RefStore, rts map[int]*instRT, st Step, apiSeq *
 		if rt == nil {
 			return
 		}
-		api("validate-or-demote", func() string {
+		api(fmt.Sprintf("validate-or-demote %d", int64(st.CtxTimeout)), func() string {
 			ctx := context.Background()
 			if st.CtxTimeout > 0 {
 				var cancel context.CancelFunc
